@@ -27,6 +27,7 @@ import (
 type File struct {
 	Path string
 	Data []byte
+	Link string // when set, Path is a symbolic link to this (relative) target instead of a regular file
 }
 
 // Program is one generator invocation whose output becomes one Go package.
@@ -140,6 +141,10 @@ func (e *Env) Generate(p *Program) {
 	for _, f := range p.Files {
 		fp := filepath.Join(p.Dir, f.Path)
 		_ = os.MkdirAll(filepath.Dir(fp), 0o755)
+		if f.Link != "" {
+			_ = os.Symlink(f.Link, fp)
+			continue
+		}
 		_ = os.WriteFile(fp, f.Data, 0o644)
 	}
 	_ = os.MkdirAll(filepath.Join(p.Dir, p.Cwd), 0o755)
